@@ -169,6 +169,13 @@ class Lexer:
                             self.column,
                         )
                     result.append(chr(code))
+                elif escape in ("\n", "\u2028", "\u2029"):
+                    # A line continuation: backslash and line break are not
+                    # part of the value
+                    pass
+                elif escape == "\r":
+                    if self._current() == "\n":
+                        self._advance()  # \r\n is one line break
                 else:
                     # Unknown escape - just use the character
                     result.append(escape)
@@ -448,18 +455,20 @@ class Lexer:
 
         raise JSSyntaxError(f"Unexpected character: {ch!r}", line, column)
 
-    def read_regex_literal(self) -> Token:
+    def read_regex_literal(self, consumed: int = 1) -> Token:
         """Read a regex literal after the opening slash has been consumed.
 
         This is called by the parser when it knows a regex is expected.
-        The opening / has already been consumed.
+        The opening / has already been consumed, as a token of its own or as
+        the first character of a /= token (`consumed` characters in all): a
+        pattern may start with =.
         """
         line = self.line
-        column = self.column - 1  # Account for the / we already consumed
+        column = self.column - consumed  # Account for what we already consumed
 
-        # Go back one position to re-read from /
-        self.pos -= 1
-        self.column -= 1
+        # Go back to re-read from /
+        self.pos -= consumed
+        self.column -= consumed
 
         if self._current() != "/":
             raise JSSyntaxError("Expected regex literal", line, column)
@@ -474,7 +483,10 @@ class Lexer:
             ch = self._current()
 
             if ch == "\\" and self.pos + 1 < self.length:
-                # Escape sequence - include both characters
+                # Escape sequence - include both characters; a line break
+                # cannot be escaped
+                if self.source[self.pos + 1] in "\n\r\u2028\u2029":
+                    raise JSSyntaxError("Unterminated regex literal", line, column)
                 pattern.append(self._advance())
                 pattern.append(self._advance())
             elif ch == "[":
